@@ -173,3 +173,53 @@ def no_implicit_concat(ctx, rep, R, rel, what):
     rep.ob(R, rel, "no entry of a table of names is two adjacent string literals (%s)" % what, not hits,
            "%s — a comma is missing: Python joins adjacent literals, so the table holds one joined word instead of the two intended "
            "ones and neither of them is recognised any more" % "; ".join("line %d: %s = %s" % (ln, " ".join(p), repr(j)) for ln, j, p in hits[:5]))
+
+
+# -- str.strip with a multi-character argument ---------------------------------------------------------------------------------
+def charset_strips(mod: ast.AST):
+    """[(lineno, text)] of .strip/.lstrip/.rstrip calls whose argument is a string literal of two or more characters: the argument
+    is a SET of characters, not a prefix/suffix — `"depth".lstrip("der(")` is "pth"."""
+    out = []
+    for c in ast.walk(mod):
+        if isinstance(c, ast.Call) and isinstance(c.func, ast.Attribute) and c.func.attr in ("strip", "lstrip", "rstrip") and len(c.args) == 1 \
+                and isinstance(c.args[0], ast.Constant) and isinstance(c.args[0].value, str) and len(c.args[0].value) >= 2:
+            out.append((c.lineno, norm(c)[:70]))
+    return out
+
+
+def no_charset_strip(ctx, rep, R, rel, what):
+    probe = ast.parse("n = name.lstrip('der(').rstrip(')')\nm = s.strip()\n")
+    if [t for _l, t in charset_strips(probe)] != ["name.lstrip('der(')"]:
+        from ..engine import AnalysisError
+        raise AnalysisError(R, "self-test of the strip detector failed")
+    hits = charset_strips(ctx.module(rel, R))
+    rep.ob(R, rel, "no prefix/suffix is removed with a character-set strip (%s)" % what, not hits,
+           "%s — str.strip/lstrip/rstrip take a set of characters: every leading (trailing) character that occurs in the argument is removed, "
+           "so names that begin with one of those letters lose their first letters" % "; ".join("line %d: %s" % h for h in hits[:4]))
+
+
+# -- predicate methods used without being called ---------------------------------------------------------------------------------
+def uncalled_predicates(mod: ast.AST):
+    """[(lineno, text)] of attribute reads `<x>.is_foo` / `<x>.has_foo` that are not called although the same attribute name is called
+    elsewhere in the module (so it is a method): a bound method is always true"""
+    called = {c.func.attr for c in ast.walk(mod) if isinstance(c, ast.Call) and isinstance(c.func, ast.Attribute)}
+    assigned = {t.attr for st in ast.walk(mod) if isinstance(st, (ast.Assign, ast.AnnAssign, ast.AugAssign))
+                for t in (st.targets if isinstance(st, ast.Assign) else [st.target]) if isinstance(t, ast.Attribute)}
+    funcs = {id(c.func) for c in ast.walk(mod) if isinstance(c, ast.Call)}
+    out = []
+    for x in ast.walk(mod):
+        if isinstance(x, ast.Attribute) and isinstance(x.ctx, ast.Load) and id(x) not in funcs and re.match(r"^(is|has|n)_[a-z0-9_]+$|^(numel|size1|size2|nnz)$", x.attr) \
+                and x.attr in called and x.attr not in assigned:
+            out.append((x.lineno, norm(x)[:60]))
+    return out
+
+
+def no_uncalled_predicates(ctx, rep, R, rel, what):
+    probe = ast.parse("a = v.is_constant() and v.is_regular\nb = w.is_regular()\n")
+    if [t for _l, t in uncalled_predicates(probe)] != ["v.is_regular"]:
+        from ..engine import AnalysisError
+        raise AnalysisError(R, "self-test of the uncalled-predicate detector failed")
+    hits = uncalled_predicates(ctx.module(rel, R))
+    rep.ob(R, rel, "every predicate method is called where its answer is used (%s)" % what, not hits,
+           "%s — the method object itself is always true: the test it was meant to make never fails (an unset parameter counts as regular, a symbolic "
+           "value as constant, ...)" % "; ".join("line %d: %s" % h for h in hits[:4]))
